@@ -60,6 +60,7 @@ class VProc:
         self.child = None           # pid it waits for
         # fault plan
         self.fail_ext = 0           # number of upcoming external command executions that fail
+        self.fail_ext_cmd = None    # restrict to this command (e.g. "squeue"); None = any
         self.kill_in = None         # die before the k-th file mutation of the next step (0-based)
         self.fail_write = None      # the k-th file mutation of the next step raises EDQUOT
         self.lock_timeout = False   # next lock acquisition times out
@@ -487,7 +488,7 @@ class VCluster:
         p = self.cur()
         c0 = command[0]
         self.yield_point("EXT", " ".join(command[:3]))
-        failing = p.fail_ext > 0
+        failing = p.fail_ext > 0 and (p.fail_ext_cmd is None or p.fail_ext_cmd == c0)
         if failing:
             p.fail_ext -= 1
         if c0 == "sbatch":
